@@ -238,7 +238,7 @@ def analyse(case, res):
 
 def run(ctx):
     rng = ctx.rng
-    nwalks = 160 if ctx.tier == "quick" else 5000
+    nwalks = 100 if ctx.tier == "quick" else 5000
     if ctx.replay:
         rp = json.load(open(ctx.replay))
         cases = [rp["case"]]
@@ -284,7 +284,7 @@ def run(ctx):
                    for (_, e, _, r) in walks[:4]]
     # tie B: the model runs the same schedules inside Coq; every post-state compared
     if ctx.coq_ok:
-        shard = 60
+        shard = 30
         from concurrent.futures import ThreadPoolExecutor
         def eval_shard(s):
             part = walks[s:s + shard]
@@ -293,7 +293,7 @@ def run(ctx):
                     ";\n ".join("(%d, [%s])" % (e["n"], ";\n   ".join(cs)) for (_, e, cs, _) in part) + "].\n"
                     "Definition M := Eval vm_compute in mismatches_from 0 walks.\nPrint M.\n")
             return (s,) + tuple(vlib.coq_eval("C15_walks_%d" % s, body))
-        with ThreadPoolExecutor(max_workers=3) as ex:
+        with ThreadPoolExecutor(max_workers=4) as ex:
             results = list(ex.map(eval_shard, range(0, len(walks), shard)))
         for (s, rc, out, err) in results:
             part = walks[s:s + shard]
@@ -337,7 +337,7 @@ MANIFEST = {
              "spec-state resources (harness/steplib); the model runs the same schedule in Coq and every post-state (network bags, hasLock, msg, q, every pc, "
              "the two history lists) and every outcome (commit / disabled / finished / assertion) is compared; an implementation-side oracle checks mutual exclusion, "
              "grant-only-to-waiting and FIFO directly on the observed Go states."),
-    "level_note": ("Trusted: Coq kernel; the hand-written model (tie = differential testing on 160 quick / 5000 thorough schedules for 1-5 clients, all seven labels and both "
+    "level_note": ("Trusted: Coq kernel; the hand-written model (tie = differential testing on 100 quick / 5000 thorough schedules for 1-5 clients, all seven labels and both "
                    "branches of every await reached); the spec-state resources that replace the deployment mailboxes (their atomicity/FIFO is C01/C06). "
                    "The liveness properties of the spec (ProgressOK, NoPriorityInversion) are not claimed."),
 }
